@@ -11,6 +11,9 @@ CORPUS = [
             note="second request inside the window; re-idle exactly at the timeout"),
     L.Sched(labels=["D0", "S*", "N:" + hexs("mixer"), "D3", "i1:" + L.spec("echo", "a"), "D0", "S*", "D0"] + L.FLUSH,
             note="request arrives while an idle reply is half delivered"),
+    # the application keeps ConnectionEvents but does not poll it while many notifications arrive: the loop must keep re-idling
+    L.Sched(labels=["D0", "S*", "q"] + sum([["N:" + hexs(L.SUBSYSTEMS[i % 14]), "D0", "S*"] for i in range(300)], []) +
+            ["c1:" + L.spec("echo", "a"), "S*", "D0", "S*", "D0", "Q"] + L.flush(1), note="300 notifications while the event stream is not polled"),
 ]
 
 
